@@ -5,9 +5,11 @@ package main
 import (
 	"bytes"
 	"fmt"
+	"net"
 	"os"
 	"path/filepath"
 	"strings"
+	"sync"
 	"time"
 
 	"rgverif/internal/common"
@@ -181,6 +183,96 @@ func markerPhase(o *common.Opts, pipelines int) (done, cmds int, cmdNames map[st
 		if lost > 0 {
 			divs = append(divs, seqrun.Div{Kind: "framing", Cmd: []string{"PING/SET/INCR x m", "<half-close>"}, Want: "one reply per command that was read, then the close", Got: fmt.Sprintf("%d of %d connections lost replies; %s", lost, n, firstBad),
 				Detail: "TCP pipelines ended by a half-close against the real binary", Sig: "marker|replies lost at end of input"})
+		}
+	}
+	// several connections fetch large, different array replies at the same time and read them late, so that the
+	// server's writes park half-way while other replies are being encoded: every connection must still decode
+	// exactly its own elements (reply buffers must not be shared between connections)
+	if srv != nil && !srv.Exited() {
+		const conns, elems, elemLen, rounds = 8, 8000, 500, 3
+		type cl struct {
+			c    *respc.Client
+			want [][]byte
+		}
+		var cls []*cl
+		for i := 0; i < conns; i++ {
+			c, err := respc.Dial(srv.Addr, 60*time.Second)
+			if err != nil {
+				break
+			}
+			if tc, ok := c.Conn.(*net.TCPConn); ok {
+				_ = tc.SetReadBuffer(32 << 10) // a small window: the server cannot hand the whole reply to the kernel
+			}
+			x := &cl{c: c}
+			args := [][]byte{[]byte("RPUSH"), []byte(fmt.Sprintf("big:%d", i))}
+			for j := 0; j < elems; j++ {
+				e := bytes.Repeat([]byte(fmt.Sprintf("c%d-e%d\r\n", i, j)), elemLen/8)
+				x.want = append(x.want, e)
+				args = append(args, e)
+			}
+			if v, err := c.DoB(args); err != nil || v.Kind != ':' {
+				c.Close()
+				break
+			}
+			cls = append(cls, x)
+		}
+		var wg sync.WaitGroup
+		var mu sync.Mutex
+		firstBad := ""
+		for i, x := range cls {
+			wg.Add(1)
+			go func(i int, x *cl) {
+				defer wg.Done()
+				for rd := 0; rd < rounds; rd++ {
+					time.Sleep(time.Duration(i*15) * time.Millisecond)
+					_ = x.c.Send(respc.Cmd("LRANGE", fmt.Sprintf("big:%d", i), "0", "-1"))
+					_ = x.c.Send(respc.Cmd("PING", fmt.Sprintf("big-marker-%d-%d", i, rd)))
+					time.Sleep(300 * time.Millisecond) // the reply does not fit the socket buffers: the server's write waits for us
+					v, err := x.c.RecvTimeout(60 * time.Second)
+					bad := ""
+					if err != nil {
+						bad = fmt.Sprintf("connection %d round %d: the %d-element reply does not decode: %v", i, rd, elems, err)
+					} else if v.Kind != '*' || len(v.Arr) != elems {
+						bad = fmt.Sprintf("connection %d round %d: reply kind %c with %d elements instead of an array of %d", i, rd, v.Kind, len(v.Arr), elems)
+					} else {
+						for j := range v.Arr {
+							if v.Arr[j].Kind != '$' || !bytes.Equal(v.Arr[j].Str, x.want[j]) {
+								got := v.Arr[j].Str
+								if len(got) > 24 {
+									got = got[:24]
+								}
+								bad = fmt.Sprintf("connection %d round %d: element %d is %q..., stored %q...", i, rd, j, got, x.want[j][:16])
+								break
+							}
+						}
+					}
+					if bad == "" {
+						if m, err := x.c.RecvTimeout(60 * time.Second); err != nil || m.Kind != '$' || string(m.Str) != fmt.Sprintf("big-marker-%d-%d", i, rd) {
+							bad = fmt.Sprintf("connection %d round %d: marker after the large reply missing or out of sync: %v %s", i, rd, err, m.String())
+						}
+					}
+					mu.Lock()
+					if bad != "" && firstBad == "" {
+						firstBad = bad
+					}
+					mu.Unlock()
+					if bad != "" {
+						return
+					}
+				}
+			}(i, x)
+		}
+		wg.Wait()
+		for _, x := range cls {
+			x.c.Close()
+		}
+		if len(cls) > 0 {
+			cmds += len(cls) * rounds
+			cmdNames["LRANGE(4 MB, 8 connections at once, late readers)"] += len(cls) * rounds
+		}
+		if firstBad != "" {
+			divs = append(divs, seqrun.Div{Kind: "framing", Cmd: []string{"LRANGE big:<i> 0 -1", "PING marker"}, Want: "each connection decodes exactly the elements stored in its own list, then its marker", Got: firstBad,
+				Detail: "TCP concurrent large replies against the real binary", Sig: "marker|concurrent large replies"})
 		}
 	}
 	// slow reader: replies larger than the socket buffers are left unread for a while; afterwards the
